@@ -1,4 +1,5 @@
 import Cfi.Container
+import Cfi.Files
 /-!
 Pinned-tree (commit 18bf73c) variants of functions that were repaired by `fix:`
 commits, kept to document — by kernel-checked counter-examples in
@@ -35,5 +36,48 @@ def remove (s : Heap) (r : Id) : Heap := unlinkNext (unlinkPrev s r) r
 /-- Pinned `remove_*_of_type` loop: `r != self.__root` (value inequality). -/
 def removeMany (eqv : Id → Id → Bool) (s : Heap) (xs : List Id) : Heap :=
   xs.foldl (fun s r => if !eqv r s.root then remove s r else s) s
+
+end Cfi.Legacy
+
+/-! ### fields, lines, registers, reading loops (pinned code) -/
+namespace Cfi.Legacy
+open Cfi Cfi.Text
+
+/-- D1: pinned `FloatField._textual_write` ignored the configured separator -/
+def renderTextFloat (f : Field) (v : Val) : Except Exc (List Char) :=
+  match f.kind with
+  | .flt dec fmt _ => renderText { f with kind := .flt dec fmt ['.'] } v
+  | _ => renderText f v
+
+/-- D3: pinned `__delimted_reading`: `zip(fields, tokens)` — a field without a
+token keeps the value its slot held before -/
+def readDelim (fs : List Field) (slots : List Val) (line d : List Char) : List Val :=
+  let tokens := (split line d).map strip
+  let rec go : List Field → List Val → List (List Char) → List Val
+    | [], _, _ => []
+    | f :: fs, _ :: ss, t :: ts => f.rebased.readText t :: go fs ss ts
+    | f :: fs, [], t :: ts => f.rebased.readText t :: go fs [] ts
+    | _ :: fs, s :: ss, [] => s :: go fs ss []
+    | _ :: fs, [], [] => Val.none :: go fs [] []
+  go fs slots tokens
+
+/-- D11: pinned delimited mode re-based the shared fields permanently -/
+def fieldsAfterDelimitedUse (fs : List Field) : List Field := fs.map Field.rebased
+
+/-- D7: pinned binary `Register.read` asked for `IDENTIFIER_DIGITS + line.size` bytes -/
+def recordSize (r : RegDef) : Nat := r.digits + r.recordSize
+
+/-- D10: pinned `DefaultRegister.read` consumed nothing in binary storage: the
+loop (here with fuel) appends a default element and peeks the same byte again -/
+def readRegLoopBinNoMatch : Nat → Stream UInt8 → List RElem
+  | 0, _ => []
+  | fuel + 1, s =>
+    if (s.read 1).1.isEmpty then []
+    else RElem.dflt (.bytes []) :: readRegLoopBinNoMatch fuel s
+
+/-- D8: pinned `BlockReading` called `begins()` without the storage: the textual
+adapter's test on `bytes` data is always false, every region is a default block -/
+def readBlockFileBinary (content : List UInt8) : List (BElem UInt8) :=
+  readBlockFile (10 : UInt8) true [] content
 
 end Cfi.Legacy
